@@ -782,6 +782,9 @@ func main() {
 	status := 0
 	for _, fl := range files {
 		path := filepath.Join(*repo, fl.Src)
+		if strings.HasPrefix(fl.Src, "GOROOT/") { // a file of the standard library (fn translator: slices.BinarySearchFunc)
+			path = filepath.Join(goroot(), "src", strings.TrimPrefix(fl.Src, "GOROOT/"))
+		}
 		var f *ast.File
 		var err error
 		var b strings.Builder
